@@ -26,7 +26,7 @@ for line in (VERIF / 'properties.jsonl').read_text().splitlines():
 manifest = {
     'version': 1,
     'setup_cmd': 'cd /verif/coq && coq_makefile -f _CoqProject $(find . -name "*.v" -not -path "./generated/*" | sort) '
-                 '-o Makefile && timeout 3000 make -j16',
+                 '-o Makefile && (timeout 3000 make -k -j16 || echo "setup: some files did not build; each check rebuilds and reports its own")',
     'hooks': {
         'guard': 'T4GC_VERIF',
         'enable': 'no hook is compiled into /repo; checks import /repo with PYTHONPATH=/repo and install the '
